@@ -59,3 +59,23 @@ Fixpoint tpl_render (envs : list (bytes * bytes)) (segs : list tseg) : tresult :
       | e => e
       end
   end.
+
+(* ---- the environment map (pkg/config/load.go init): for each entry of os.Environ(),
+   pair := strings.SplitN(env, "=", 2); entries without '=' are skipped; glbEnvs[pair[0]] = pair[1].
+   Split at the FIRST '=': the value keeps every further '='. *)
+Definition tpl_eq : byte := "="%byte.
+
+Fixpoint env_split (s : bytes) : option (bytes * bytes) :=
+  match s with
+  | [] => None
+  | b :: r =>
+      if Byte.eqb b tpl_eq then Some ([], r)
+      else match env_split r with
+           | Some (k, v) => Some (b :: k, v)
+           | None => None
+           end
+  end.
+
+(* a later assignment to the same key overwrites an earlier one: newest first, first match wins *)
+Definition env_build (environ : list bytes) : list (bytes * bytes) :=
+  fold_left (fun acc e => match env_split e with Some p => p :: acc | None => acc end) environ [].
